@@ -168,6 +168,17 @@ func TestC23(t *testing.T) {
 				return strings.Join(sigh.Verdicts(x.Log, "V23:"), " ; ")
 			}}
 	}, sigh.ClassKeys)
+	// S1: the real relay with scripted clients, one of them slow to drain its
+	// stream (the relay's Send blocks) while the other side's call ends and a new
+	// one attaches and sends: at quiescence, with every stream draining again,
+	// nothing may be left queued at the relay for an attached peer
+	s1 := []sigh.Scen{
+		{"slow-receiver/sender-reattaches-then-sends", [][]string{{"attach:a1:A:B", "attachs:b1:B:A", "wait", "cancel:a1", "wait", "attach:a2:A:B", "wait", "send:a2:m1", "wait", "resume:b1", "wait"}}},
+		{"slow-receiver/send-in-flight-across-reattach", [][]string{{"attach:a1:A:B", "attachs:b1:B:A", "wait", "send:a1:m1", "cancel:a1", "attach:a2:A:B", "wait", "send:a2:m2", "wait", "resume:b1", "wait"}}},
+		{"slow-receiver/sender-usurps-then-sends", [][]string{{"attach:a1:A:B", "attachs:b1:B:A", "wait", "attach:a2:A:B", "wait", "send:a2:m1", "wait", "resume:b1", "wait"}}},
+		{"receiver-stalls-later/sender-reattaches-then-sends", [][]string{{"attach:a1:A:B", "attach:b1:B:A", "wait", "stall:b1", "cancel:a1", "wait", "attach:a2:A:B", "wait", "send:a2:m1", "wait", "resume:b1", "wait"}}},
+	}
+	sigh.ExploreS1(t, run, agg, "V23:", s1, bound)
 	agg.Finish(true)
 	run.Cov["delay_bound"] = bound
 	run.Cov["delay_bound_client_only_harness"] = s2bound
